@@ -336,7 +336,7 @@ class RlaToArray(Family):
     timeout_ms = 30000
     assumed = ["numpy fancy assignment (witness form)", "ufunc.accumulate(out=): acc(0)=x(0), acc(j+1)=acc(j)^x(j+1)",
                "ndarray.view between same-size dtypes is the identity on bit patterns (float64 <-> uint64)",
-               "lemma (unproved, standard): every position p < events[-1] lies in exactly one run"]
+               "lemma partition-point applied to the run boundaries (proved by induction in vf.proofs.lemmas)"]
 
     def kinds(self):
         return ["uint64", "float64-viewed"]
@@ -499,5 +499,54 @@ class RlaAnyAllMax(Family):
         r = RunLengthArray.from_array(x)
         if bool(r.any()) != bool(x.any()) or bool(r.all()) != bool(x.all()) or r.max() != x.max():
             return {"msg": f"any/all/max of rla({case['a']})", "sig": "wrong:rla-any-all-max"}
+
+    bounded_cases = RlaUfunc.bounded_cases
+
+
+@register
+class RlaConcatenate(Family):
+    """np.concatenate of RunLengthArrays: boundaries of operand i shifted by the total length of the operands before it,
+    values in order; canonical.  (2 and 3 operands unrolled, all run structures symbolic.)"""
+    name = "runlengtharray.concatenate"
+    qualname = "npstructures.runlengtharray:concatenate"
+    serves = ["C16", "C14"]
+    assumed = ["numpy.cumsum / insert / concatenate of small concrete-length lists and 1-D arrays"]
+
+    def kinds(self):
+        return ["2", "3"]
+
+    def run(self, ctx, kind):
+        import npstructures.runlengtharray as mod
+        k = int(kind)
+        rs = [sym_rla(ctx, f"r{i}") for i in range(k)]
+        out = mod.concatenate([r.obj for r in rs])
+        ev, va = out._events, out._values
+        offm, offn = [z3.IntVal(0)], [z3.IntVal(0)]
+        for r in rs:
+            offm.append(z3.simplify(offm[-1] + r.m))
+            offn.append(offn[-1] + r.n)
+        M = offm[-1]
+        ctx.prove("post.number of runs is the sum", z3.And(dim_term(va.shape_[0]) == M, dim_term(ev.shape_[0]) == M + 1))
+        ctx.prove("post.total length", ev.get(M) == offn[-1])
+        t = z3.Int("t")
+        ctx.skolem(z3.And(0 <= t, t < M))
+        expE = expV = None
+        for i in range(k - 1, -1, -1):
+            e_i, v_i = offn[i] + rs[i].E(t - offm[i]), rs[i].V(t - offm[i])
+            expE = e_i if expE is None else z3.If(t < offm[i + 1], e_i, expE)
+            expV = v_i if expV is None else z3.If(t < offm[i + 1], v_i, expV)
+        ctx.add_index(t, t + 1, *[t - o for o in offm[:-1]], *[t + 1 - o for o in offm[:-1]], *[r.m for r in rs])
+        ctx.prove("post.run t starts where its operand's run starts, shifted by the lengths before", ev.get(t) == expE)
+        ctx.prove("post.values in order", va.get(t) == expV)
+        ctx.prove("post.canonical: strictly increasing", ev.get(t) < ev.get(t + 1))
+        ctx.prove("post.operands not modified", z3.BoolVal(all(r.ev.buf.writes == 0 and r.va.buf.writes == 0 for r in rs)))
+
+    def concrete(self, case):
+        from npstructures import RunLengthArray
+        x = np.array(case["a"])
+        y = x[::-1].copy()
+        got = np.asarray(np.concatenate([RunLengthArray.from_array(x), RunLengthArray.from_array(y), RunLengthArray.from_array(x)])).tolist()
+        if got != np.concatenate([x, y, x]).tolist():
+            return {"msg": f"concatenate of rla({case['a']}) variants: {got}", "sig": "wrong:rla-concatenate"}
 
     bounded_cases = RlaUfunc.bounded_cases
